@@ -108,6 +108,7 @@ type chain struct {
 	savedState int64 // highest LastBlockHeight saved in the state store (-1 none)
 	pool       *evidence.Pool
 	dead       bool
+	hook       *hooker
 	defs       map[string]*evDef
 	order      []string
 }
@@ -227,6 +228,50 @@ func (c *chain) build() {
 	c.evDB = dbm.NewMemDB()
 }
 
+// hooker lets the harness run something at a chosen point INSIDE a pool call: the next store lookup
+// (block meta) or evidence-DB membership test made by the pool
+type hooker struct {
+	mu sync.Mutex
+	fn func()
+}
+
+func (h *hooker) fire() {
+	h.mu.Lock()
+	f := h.fn
+	h.fn = nil
+	h.mu.Unlock()
+	if f != nil {
+		f()
+	}
+}
+
+type hookBS struct {
+	*store.BlockStore
+	h *hooker
+}
+
+func (b hookBS) LoadBlockMeta(height int64) *types.BlockMeta {
+	b.h.fire()
+	return b.BlockStore.LoadBlockMeta(height)
+}
+
+type hookDB struct {
+	dbm.DB
+	h *hooker
+}
+
+func (d hookDB) Has(k []byte) (bool, error) {
+	d.h.fire()
+	return d.DB.Has(k)
+}
+
+func (c *chain) newPool() (*evidence.Pool, error) {
+	if c.hook == nil {
+		c.hook = &hooker{}
+	}
+	return evidence.NewPool(hookDB{c.evDB, c.hook}, c.stateStore, hookBS{c.blockStore, c.hook})
+}
+
 // sm.State after block h (h ≥ 0)
 func (c *chain) stateAt(h int64) sm.State {
 	st := sm.State{
@@ -318,6 +363,15 @@ func parseVote(tok string) (*types.Vote, bool) {
 		v.Signature = make([]byte, 64)
 	case sig == "e":
 		v.Signature = nil
+	case strings.HasPrefix(sig, "s"): // n arbitrary signature bytes (1..64)
+		n, err := strconv.Atoi(sig[1:])
+		if err != nil || n < 1 || n > 64 {
+			return nil, false
+		}
+		v.Signature = fixed(0x01)[:0]
+		for i := 0; i < n; i++ {
+			v.Signature = append(v.Signature, 0x01)
+		}
 	case strings.HasPrefix(sig, "k") || strings.HasPrefix(sig, "w"):
 		i, err := strconv.Atoi(sig[1:])
 		if err != nil || i < 0 || i > 999 {
@@ -415,7 +469,7 @@ func (c *chain) buildLCA(m map[string]string) (*types.LightClientAttackEvidence,
 	}
 	var cvs []cv
 	switch atk {
-	case "lunatic":
+	case "lunatic", "lunaticbig":
 		hd.AppHash = fixed(0xEE)
 		for _, v := range c.blkAt(common).vals {
 			if ki, ok := keyIdx(v.pk); ok && v.addr == v.pk {
@@ -423,6 +477,11 @@ func (c *chain) buildLCA(m map[string]string) (*types.LightClientAttackEvidence,
 			}
 		}
 		cvs = append(cvs, cv{900, 1}) // a phantom validator
+		if atk == "lunaticbig" {      // a large conflicting validator set: the encoded evidence exceeds 16 KiB
+			for k := 0; k < 130; k++ {
+				cvs = append(cvs, cv{300 + k, 1})
+			}
+		}
 	case "equiv", "amnesia", "same":
 		for _, v := range c.blkAt(cfh).vals {
 			if ki, ok := keyIdx(v.pk); ok && v.addr == v.pk {
@@ -453,7 +512,7 @@ func (c *chain) buildLCA(m map[string]string) (*types.LightClientAttackEvidence,
 		byAddr[string(pk.Address())] = v.ki
 	}
 	cvals := types.NewValidatorSet(vals)
-	if atk == "lunatic" {
+	if atk == "lunatic" || atk == "lunaticbig" {
 		hd.ValidatorsHash = cvals.Hash()
 	}
 	id := types.BlockID{Hash: hd.Hash(), PartSetHeader: types.PartSetHeader{Total: 1, Hash: fixed(0xCC)}}
